@@ -250,6 +250,13 @@ def op_q(w, op):
     R = w.R
     st, val = _call(w, _ask, R, sl.real, op)
     cls = _cls(sl)
+    if q == "hash" and not m.atoms:
+        logged = "masked"        # hash(cls): process dependent by design
+    elif st == "ok":
+        logged = repr(val)
+    else:
+        logged = type(val).__name__ if st == "exc" else st
+    w.log.append(("q", w.step_no, q, st, logged))
     own = {"eq_self": "C01", "hash": "C03"}.get(q, "C09")
     if st == "hang":
         w.report({own}, f"q:{q}|hang|{cls}", "", taint=[s])
@@ -929,6 +936,7 @@ def gen_next(w, op):
             return
         w.stats["gen_yield"] += 1
         if gs.data["kind"] == "enum":
+            w.log.append(("yield", w.step_no, tuple(sorted(val.items()))))
             gs.data["yielded"].append(dict(val))
             tamper = op.get("tamper")
             if tamper == "clear":
